@@ -19,8 +19,9 @@ import (
 )
 
 type textMeaning struct {
-	dec *IntV   // decimal text of this signed integer
-	hex *SliceV // upper-case hex text of these bytes
+	dec   *IntV   // decimal text of this signed integer
+	hex   *SliceV // hex text of these bytes (upper case unless lower)
+	lower bool
 }
 
 // mkDecText creates a byte slice holding the decimal text of v (v ranges over its type / refined range).
